@@ -1221,10 +1221,14 @@ func c08gen(r *rand.Rand, i int) c08case {
 		cs.Certs = append(cs.Certs, []string{"nil", "empty", "valid", "valid", "min", "valid"}[r.Intn(6)])
 	}
 	cs.Certs[nFork-1] = []string{"valid", "min"}[r.Intn(2)]
-	switch i % 11 {
+	fam := i % 11
+	if fam == 10 && (i/11)%2 == 1 { // the window-edge family costs about a second per case: every other turn only
+		fam = 0
+	}
+	switch fam {
 	case 10: // common ancestor at the edge of the window of 100 saved versions (head-98 / head-99 / head-100), the node
 		// adds 0/1/2 own blocks between fork validation and ApplyFork: the rollback fails once the version is pruned
-		combo := [][2]int{{99, 1}, {98, 2}, {99, 0}, {98, 1}, {99, 2}, {100, 0}, {98, 0}, {101, 1}}[(i/11)%8]
+		combo := [][2]int{{99, 1}, {98, 2}, {99, 0}, {98, 1}, {99, 2}, {100, 0}, {98, 0}, {101, 1}}[(i/22)%8]
 		cs.Online, cs.Share, cs.Own, cs.Fork, cs.Certs, cs.Advance = 1+r.Intn(2), false, nil, nil, nil, nil
 		cs.Prefix = 4 + r.Intn(2)
 		for j := 0; j < combo[0]; j++ {
@@ -1304,7 +1308,7 @@ func c08gen(r *rand.Rand, i int) c08case {
 				cs.Certs[j] = "valid"
 			}
 		}
-		if i%11 == 2 {
+		if fam == 2 {
 			cs.Certs[nFork-1] = c08shapes[(i/11)%len(c08shapes)]
 		} else {
 			if nFork < 2 {
@@ -1355,7 +1359,7 @@ func c08shrink(c *hx.Ctx, cs c08case, sig string) c08case {
 	tries := 0
 	try := func(cand c08case) bool {
 		tries++
-		if tries > 60 { // long own branches (window-edge family) make every attempt cost about a second
+		if tries > 30 { // long own branches (window-edge family) make every attempt cost about a second
 			return false
 		}
 		f, err := c08run(c, cand, false)
